@@ -29,14 +29,16 @@ Theorem C39_remove_inv : forall t k t' e ok, Inv t -> tremove t k = R t' e ok ->
 Proof. exact remove_inv. Qed.
 Print Assumptions C39_remove_inv.
 
-(* FULL statement (refuted below): for ANY history of Add / Add-in-rename-mode / Remove from any Inv
-   tree no step panics and the result satisfies Inv and refines the map.
-   PROVED (partial): the same for every history in which rename-mode Adds use keys not yet in the
-   tree (rn_fresh) and no step panics (run = Some): the tree satisfies Inv, its in-order contents are
-   exactly the specification's sorted list, keys are strictly sorted and unique, every lookup agrees. *)
-Theorem C39_history_partial : forall ops t t', Inv t -> rn_fresh (entries t) ops -> run ops t = Some t' ->
-  Inv t' /\ entries t' = spec_run ops (entries t) /\ lsorted (keys t') /\ NoDup (keys t') /\
-  (forall k, tvalue t' k = m_lookup k (spec_run ops (entries t))).
+(* FULL statement (refuted below for rename mode): for ANY history of Add / Add-in-rename-mode / Remove
+   from any Inv tree no step panics and the result satisfies Inv and refines the map.
+   PROVED (partial only in rn_fresh): for every history in which rename-mode Adds use keys not yet in
+   the tree, NO step panics (Remove of any key, incl. "" on the empty tree), the tree satisfies Inv, its
+   in-order contents are exactly the specification's sorted list, keys are strictly sorted and unique,
+   and every lookup agrees with the map. *)
+Theorem C39_history_partial : forall ops t, Inv t -> rn_fresh (entries t) ops ->
+  exists t', run ops t = Some t' /\ Inv t' /\ entries t' = spec_run ops (entries t) /\
+             lsorted (keys t') /\ NoDup (keys t') /\
+             (forall k, tvalue t' k = m_lookup k (spec_run ops (entries t))).
 Proof. exact history_full. Qed.
 Print Assumptions C39_history_partial.
 
@@ -55,23 +57,24 @@ Theorem C39_spec_is_map : forall k v m k', lsorted (ekeys m) ->
 Proof. exact spec_is_map. Qed.
 Print Assumptions C39_spec_is_map.
 
-(* Remove never panics on a non-empty well-formed tree; on an empty root leaf it panics exactly when
-   the key lies within the leaf's stale limits and equals one of them (for &Node{}: the key ""). *)
-Theorem C39_remove_no_panic_partial : forall t k, wf t -> tremove t k <> RPanic.
-Proof. exact remove_no_panic. Qed.
-Print Assumptions C39_remove_no_panic_partial.
-Theorem C39_remove_empty_leaf_panic_iff : forall a b k,
-  tremove (Leaf [] a b) k = RPanic <-> (kle a k /\ kle k b /\ (k = a \/ k = b)).
-Proof. exact remove_empty_leaf_panic_iff. Qed.
-Print Assumptions C39_remove_empty_leaf_panic_iff.
+(* Remove never panics, on ANY tree (well-formed or not, empty root included); on an empty root leaf
+   it is a no-op reporting (false, false), whatever the stale limits are. *)
+Theorem C39_remove_never_panics : forall t k, tremove t k <> RPanic.
+Proof. exact remove_total. Qed.
+Print Assumptions C39_remove_never_panics.
+Theorem C39_remove_empty_root_noop : forall a b k, tremove (Leaf [] a b) k = R (Leaf [] a b) false false.
+Proof. exact remove_empty_leaf. Qed.
+Print Assumptions C39_remove_empty_root_noop.
 
-(* DEFECT witness 1: Remove("") on the empty tree, fresh or after the last key was removed *)
-Theorem C39_remove_empty_key_refuted :
-  run [ORemove []] empty_tree = None /\ run [OAdd kA 1%N; ORemove kA; ORemove []] empty_tree = None.
-Proof. split; [exact remove_empty_key_on_empty_tree_panics|exact remove_after_last_key_panics]. Qed.
-Print Assumptions C39_remove_empty_key_refuted.
+(* regression for the fixed defect (commit 259840a1): Remove("") on the empty tree, fresh or after the
+   last key was removed, leaves the empty tree *)
+Theorem C39_remove_empty_key_regression :
+  run [ORemove []] empty_tree = Some empty_tree /\
+  run [OAdd kA 1%N; ORemove kA; ORemove []] empty_tree = Some empty_tree.
+Proof. split; [exact remove_empty_key_on_empty_tree_ok|exact remove_after_last_key_ok]. Qed.
+Print Assumptions C39_remove_empty_key_regression.
 
-(* DEFECT witness 2: rename mode (AddAttachment, bookmarks) adding a,b,b,c,b yields the key b\x01 twice *)
+(* DEFECT witness (open finding add-rename-dup-crosses-leaf): rename mode (AddAttachment, bookmarks) adding a,b,b,c,b yields the key b\x01 twice *)
 Theorem C39_add_rename_refuted :
   exists t, run rename_witness empty_tree = Some t /\ ~ NoDup (keys t) /\ ~ lsorted (keys t).
 Proof. exact rename_breaks_uniqueness. Qed.
@@ -96,11 +99,10 @@ Theorem C39_shape_bound : forall t k v, bounded t ->
 Proof. intros t k v Hb. split; [apply add_bounded; exact Hb|]. intros t' e ok Hw E. exact (remove_bounded t k t' e ok Hw Hb E). Qed.
 Print Assumptions C39_shape_bound.
 
-(* Histories from the empty tree, total version: if rename-mode Adds use fresh keys and Remove("") is
-   never applied while the map is empty (safe0; exactly the two refuted cases), NO step panics, the tree
-   stays well-formed and within the shape bound, equals the specification's sorted list, is sorted and
-   every lookup agrees with the map. *)
-Theorem C39_history_from_empty_partial : forall ops, safe0 [] ops ->
+(* Histories from the empty tree: if rename-mode Adds use fresh keys (the only restriction; the general
+   case is refuted above), NO step panics, the tree stays well-formed and within the shape bound, equals
+   the specification's sorted list, is sorted and every lookup agrees with the map. *)
+Theorem C39_history_from_empty_partial : forall ops, rn_fresh [] ops ->
   exists t, run ops empty_tree = Some t /\ Inv0 t /\ entries t = spec_run ops [] /\ lsorted (keys t) /\ (forall k, tvalue t k = m_lookup k (spec_run ops [])).
 Proof. exact history_from_empty. Qed.
 Print Assumptions C39_history_from_empty_partial.
@@ -113,10 +115,9 @@ Definition nv_ops : list op :=
 Example C39_nonvacuous :
   (exists t, run nv_ops empty_tree = Some t /\ keys t = [[]; kC; [100%N]; [101%N]]
              /\ exists kids a b, t = Inner kids a b)
-  /\ rn_fresh (entries empty_tree) nv_ops /\ Inv empty_tree /\ safe0 [] nv_ops.
+  /\ rn_fresh (entries empty_tree) nv_ops /\ Inv empty_tree.
 Proof.
-  split; [|split; [|split; [exact inv_empty|]]].
+  split; [|split; [|exact inv_empty]].
   - eexists. split; [vm_compute; reflexivity|]. split; [reflexivity|]. do 3 eexists. reflexivity.
   - cbn. repeat split; reflexivity.
-  - cbn. repeat split; try reflexivity; try discriminate; intros; discriminate.
 Qed.
